@@ -40,6 +40,7 @@ type ObStatus struct {
 	Queries  int
 	Backend  map[string]int
 	Time     float64
+	MaxTime  float64 // slowest single query
 	Model    string
 	Script   string
 	Pos      token.Position
@@ -58,7 +59,13 @@ func main() {
 	jobs := flag.Int("j", runtime.NumCPU()-1, "parallel solver processes")
 	timeout := flag.Int("timeout", 0, "per-query timeout ms")
 	noEvidence := flag.Bool("no-evidence", false, "do not write evidence")
+	workFlag := flag.String("work", "", "directory for solver scripts and replay files (default: the verification root; concurrent runs of one property need separate ones)")
 	flag.Parse()
+	workBase = *verif
+	if *workFlag != "" {
+		workBase = *workFlag
+		os.MkdirAll(filepath.Join(workBase, "work"), 0o755)
+	}
 	t0 := time.Now()
 	seed := 0
 	if s := os.Getenv("VERIF_SEED"); s != "" {
@@ -197,7 +204,7 @@ func main() {
 		e.fnByKey[fnKey(fn)] = fn
 	}
 	if os.Getenv("VERIF_NOPRUNE") == "" {
-		e.prune = MakePruner(e, filepath.Join(*verif, "work", *prop+".feas"), 400)
+		e.prune = MakePruner(e, filepath.Join(workBase, "work", *prop+".feas"), 400)
 	}
 	e.scanGlobals()
 	e.loadAxioms()
@@ -239,7 +246,7 @@ func main() {
 	if *verbose {
 		fmt.Fprintf(os.Stderr, "symbolic execution done at %.1fs\n", time.Since(t0).Seconds())
 	}
-	work := filepath.Join(*verif, "work", *prop)
+	work := filepath.Join(workBase, "work", *prop)
 	os.RemoveAll(work)
 	scfg := &SolveCfg{WorkDir: work, TimeoutMs: *timeout, Jobs: *jobs, Prelude: e.d.Prelude(), Keyed: e.d.KeyedAxioms}
 	tSolve := time.Now()
@@ -334,6 +341,9 @@ func (e *Engine) loadAxioms() {
 	}
 }
 
+// workBase: where solver scripts (work/) and replay files (replays/) go
+var workBase string
+
 func report(e *Engine, prop, tier string, seed int, verif string, results []*FuncResult, update, verbose bool, t0 time.Time, solveWall float64, noEvidence bool, partial bool) int {
 	obs := map[string]*ObStatus{}
 	var order []string
@@ -385,6 +395,9 @@ func report(e *Engine, prop, tier string, seed int, verif string, results []*Fun
 			}
 			o.Queries++
 			o.Time += q.Time
+			if q.Time > o.MaxTime {
+				o.MaxTime = q.Time
+			}
 			o.Backend[q.Backend]++
 			backends[q.Backend]++
 			switch q.Status {
@@ -556,7 +569,7 @@ func report(e *Engine, prop, tier string, seed int, verif string, results []*Fun
 	// findings that no longer fail are fine; nothing to print.
 
 	violations = append(violations, undecidable...)
-	replayDir := filepath.Join(verif, "replays", prop)
+	replayDir := filepath.Join(workBase, "replays", prop)
 	if len(violations) > 0 && exit != 2 {
 		os.MkdirAll(replayDir, 0o755)
 		for _, o := range violations {
@@ -578,7 +591,7 @@ func report(e *Engine, prop, tier string, seed int, verif string, results []*Fun
 	if verbose {
 		for _, n := range order {
 			o := obs[n]
-			fmt.Fprintf(os.Stderr, "  %-10s %s (%d q, %.2fs)\n", o.Status, n, o.Queries, o.Time)
+			fmt.Fprintf(os.Stderr, "  %-10s %s (%d q, %.2fs, slowest %.2fs)\n", o.Status, n, o.Queries, o.Time, o.MaxTime)
 		}
 	}
 
